@@ -33,6 +33,27 @@ CMP = {ast.Lt: ast.LtE, ast.LtE: ast.Lt, ast.Gt: ast.GtE, ast.GtE: ast.Gt, ast.E
        ast.Is: ast.IsNot, ast.IsNot: ast.Is, ast.In: ast.NotIn, ast.NotIn: ast.In}
 
 
+_SWAPS = [('min', 'max'), ('nanmin', 'nanmax'), ('any', 'all'), ('latitude', 'longitude'), ('left', 'back'), ('first', 'last'), ('start', 'end'), ('lower', 'upper'),
+          ('face', 'node'), ('keys', 'values'), ('argmin', 'argmax'), ('floor', 'ceil')]
+
+
+def _swapped(name: str):
+    for a, b in _SWAPS:
+        for x, y in ((a, b), (b, a)):
+            if name == x:
+                return y
+            for sep in ('_',):
+                if name.startswith(x + sep):
+                    return y + name[len(x):]
+                if name.endswith(sep + x):
+                    return name[:-len(x)] + y
+    if name.endswith('_x'):
+        return name[:-2] + '_y'
+    if name.endswith('_y'):
+        return name[:-2] + '_x'
+    return None
+
+
 def _segment(src_lines, node):
     return (node.lineno, node.col_offset, node.end_lineno, node.end_col_offset)
 
@@ -49,6 +70,11 @@ def sites_of(path: Path):
 
     def walk_fn(fn_node, qual):
         docstring = ast.get_docstring(fn_node, clean=False)
+        # strings of messages (raise, warn, log, f-strings) are not data
+        skip_strings = set()
+        for x in ast.walk(fn_node):
+            if isinstance(x, (ast.Raise, ast.JoinedStr)) or (isinstance(x, ast.Call) and isinstance(x.func, ast.Attribute) and x.func.attr in ('warn', 'debug', 'info', 'warning', 'error', 'exception', 'add_argument', 'field')):
+                skip_strings |= {id(y) for y in ast.walk(x)}
         for st_i, st in enumerate(fn_node.body):
             if st_i == 0 and docstring is not None:
                 continue
@@ -73,6 +99,14 @@ def sites_of(path: Path):
                 elif isinstance(n, ast.BinOp) and isinstance(n.op, (ast.Add, ast.Sub)) and not isinstance(n.left, ast.Constant):
                     m = ast.BinOp(left=n.left, op=ast.Sub() if isinstance(n.op, ast.Add) else ast.Add(), right=n.right)
                     emit(qual, 'arith', n, m, f"{ast.unparse(n)}  ->  {ast.unparse(m)}")
+                elif isinstance(n, ast.Constant) and isinstance(n.value, str) and 2 <= len(n.value) <= 24 and n.value.replace('_', '').replace('.', '').isalnum() \
+                        and id(n) not in skip_strings:
+                    emit(qual, 'str', n, repr(n.value[:-1]), f"{n.value!r}  ->  {n.value[:-1]!r}")
+                elif isinstance(n, ast.Attribute) and _swapped(n.attr) is not None and isinstance(n.ctx, ast.Load):
+                    m = ast.Attribute(value=n.value, attr=_swapped(n.attr), ctx=ast.Load())
+                    emit(qual, 'swap-name', n, m, f"{ast.unparse(n)[:80]}  ->  .{_swapped(n.attr)}")
+                elif isinstance(n, ast.Name) and _swapped(n.id) is not None and isinstance(n.ctx, ast.Load):
+                    emit(qual, 'swap-name', n, _swapped(n.id), f"{n.id}  ->  {_swapped(n.id)}")
                 elif isinstance(n, ast.Call):
                     for k_i, k in enumerate(n.keywords):
                         if k.arg is None:
@@ -130,7 +164,7 @@ def apply(text: str, site) -> str:
     new = site['new']
     if '\n' not in new and l0 != l1 and site['operator'] != 'delete':
         new = '(' + new + ')'
-    return (raw[:start] + ('(' + new + ')' if site['operator'] not in ('delete', 'bool', 'int') else new).encode() + raw[end:]).decode()
+    return (raw[:start] + ('(' + new + ')' if site['operator'] not in ('delete', 'bool', 'int', 'str') else new).encode() + raw[end:]).decode()
 
 
 def one(job) -> dict:
@@ -189,6 +223,9 @@ def main():
         texts[rel] = text
         for s in sites:
             jobs.append((rel, s))
+    ops = opt('--ops', '')
+    if ops:
+        jobs = [j for j in jobs if j[1]['operator'] in ops.split(',')]
     rnd = random.Random(seed)
     rnd.shuffle(jobs)
     total_sites = len(jobs)
